@@ -554,6 +554,30 @@ Proof.
     apply Forall_app in Hw as [Hw1 Hw2]. exact (spchain_app _ _ _ _ _ _ (IH1 Hw1) Hle (IH2 Hw2)).
 Qed.
 
+(* ordered spans are pairwise disjoint for tokens of positive width: a token lies inside at most one of them *)
+Lemma spchain_later_starts_after : forall l lo hi a b, spchain lo l hi -> In (a, b) l -> lo <= a /\ b <= hi.
+Proof.
+  induction l as [|[a0 b0] r IH]; intros lo hi a b H Hin; [destruct Hin|].
+  cbn [spchain] in H. destruct H as (H1 & H2 & H3). destruct Hin as [E|Hin].
+  - inversion E; subst. split; [exact H1|]. apply spchain_le in H3. exact H3.
+  - destruct (IH _ _ _ _ H3 Hin) as [A1 A2]. split; lia.
+Qed.
+
+Lemma spchain_disjoint : forall l lo hi i j s1 s2 k, spchain lo l hi -> (i < j)%nat ->
+  nth_error l i = Some s1 -> nth_error l j = Some s2 -> tk_lo k < tk_hi k ->
+  within (fst s1) (snd s1) k -> within (fst s2) (snd s2) k -> False.
+Proof.
+  induction l as [|[a0 b0] r IH]; intros lo hi i j s1 s2 k H Hij H1 H2 Hk W1 W2; [destruct i; discriminate|].
+  cbn [spchain] in H. destruct H as (A1 & A2 & A3).
+  destruct i as [|i].
+  - cbn in H1. inversion H1; subst s1. destruct j as [|j]; [lia|]. cbn [nth_error] in H2.
+    apply nth_error_In in H2. destruct s2 as [a2 b2].
+    destruct (spchain_later_starts_after _ _ _ _ _ A3 H2) as [B1 _].
+    unfold within in *. cbn [fst snd] in *. lia.
+  - destruct j as [|j]; [lia|]. cbn [nth_error] in H1, H2.
+    exact (IH _ _ i j s1 s2 k A3 ltac:(lia) H1 H2 Hk W1 W2).
+Qed.
+
 (** on validated tables (with `!`) the statement is about the whole input: the children of the root
     partition it exactly *)
 From LV Require Import LR.Validator LR.Safety LR.ValidatorSpec LR.NoPanic LR.RecoverySound LR.NoPanicRec.
